@@ -218,6 +218,24 @@ func (w *ibWorld) realVerdict(root, pkg string) bool {
 	panic("package not selected: " + pkg)
 }
 
+// real tool: all packages of the world verified in one run, on one Context and one universe (what the tool does when it
+// is given several input directories), in the order Packages returns them or in the reverse of it
+func (w *ibWorld) realVerdictsShared(root string, reverse bool) map[string]bool {
+	c := &generator.Context{Universe: w.universe(root)}
+	pkgs := ibgen.Packages(c, &args.GeneratorArgs{InputDirs: append([]string(nil), w.paths...)})
+	if reverse {
+		for i, j := 0, len(pkgs)-1; i < j; i, j = i+1, j-1 {
+			pkgs[i], pkgs[j] = pkgs[j], pkgs[i]
+		}
+	}
+	out := filepath.Join(root, "out")
+	res := map[string]bool{}
+	for _, p := range pkgs {
+		res[p.Path()] = c.ExecutePackage(out, p) == nil
+	}
+	return res
+}
+
 func (w *ibWorld) reach(from string, forward bool) []string {
 	seen := map[string]bool{}
 	var stack []string
@@ -312,6 +330,7 @@ func ibExec(lines []string) ([]string, []common.Failure) {
 	var fails []common.Failure
 	w := &ibWorld{files: map[string]ibFile{}}
 	root := ""
+	var shared []map[string]bool
 	defer func() {
 		if root != "" {
 			os.RemoveAll(root)
@@ -361,6 +380,15 @@ func ibExec(lines []string) ([]string, []common.Failure) {
 				for k := 0; k < 6; k++ {
 					if w.realVerdict(root, pkg) != got {
 						fails = append(fails, common.Failure{Sig: "verdict-order-dependent", What: fmt.Sprintf("package %s passes in one run and fails in another", pkg)})
+						break
+					}
+				}
+				if shared == nil {
+					shared = []map[string]bool{w.realVerdictsShared(root, false), w.realVerdictsShared(root, true)}
+				}
+				for k, sh := range shared {
+					if v, ok := sh[pkg]; ok && v != got {
+						fails = append(fails, common.Failure{Sig: "verdict-depends-on-other-inputs", What: fmt.Sprintf("package %s: pass=%v when verified alone, pass=%v when all packages are verified in one run (order %d)", pkg, got, v, k)})
 						break
 					}
 				}
